@@ -9,7 +9,8 @@ SRCS = []                 # utf8.c is #included by the harness (static tables / 
 EXCLUDE = ["utf8.c"]
 LEVEL = "proof"
 CASE_TIMEOUT = 0.2
-RULE = ("case kinds: T = compiled width tables vs the translated ones; P lo hi = every code point of the range "
+RULE = ("case kinds: T = compiled width tables vs the translated ones; W cp = tickit_utf8_wcwidth, judged against the widths "
+        "the library documents; P lo hi = every code point of the range "
         "encoded with tickit_utf8_put and counted length-bounded and NUL-terminated (run-length encoded; all of "
         "0..0x1FFFFF is covered in both tiers, i.e. encoder, decoder and width function are compared with the model on "
         "their whole domain); C = one tickit_utf8_ncountmore call (string, terminated or bounded, initial position, "
@@ -130,6 +131,13 @@ def gen_all(tier, seed, info):
             yield emit("put", "U %d %d 0" % (cp, ln))
         yield emit("put", "U %d 0 1" % cp)
         yield emit("put", "U %d 6 1" % cp)
+
+    # widths the library documents (expected values: Utf8Spec.documented_widths) and neighbours
+    anchors = [0x20, 0x41, 0x7e, 0xa0, 0xad, 0xe9, 0xff, 0x300, 0x301, 0x36f, 0x200b, 0x1160, 0x1161, 0x11a8,
+               0x11ff, 0x1100, 0x115f, 0x2501, 0x253b, 0x30ce, 0x5f61, 0x7ca0, 0xac00, 0xff01, 0xff21, 0xff60, 0x1f3e0]
+    for cp in sorted(set(anchors + list(range(0x1160, 0x1200)) + [0, 0x1f, 0x7f, 0x80, 0x9f, 0x2ff, 0x370, 0x303f,
+                                                               0x2fffd, 0x2fffe, 0x3fffd, 0x3fffe, 0x10ffff, 0x1fffff])):
+        yield emit("width", "W %d" % cp)
 
     # 1. every code point below 0x200000 (encoder + decoder + width, whole domain)
     step = 4096
@@ -299,7 +307,7 @@ def byte_class(b):
 
 def classify(case, obs):
     t = case.split()
-    if t[0] in ("T", "S", "U"):
+    if t[0] in ("T", "S", "U", "W"):
         return (t[0],) + tuple(t[1:])
     if t[0] == "P":
         return ("P", t[1])
